@@ -75,6 +75,10 @@ package storage
 //@   ensures[C08,C01] SeqInv(m)
 //@   ensures[C08,C01] m.wal.nextSequence >= old(m.wal.nextSequence)
 //@   ensures[C08] m.lastSeqNum == old(m.lastSeqNum) && m.memTablePool.maxStamp == old(m.memTablePool.maxStamp)
+// Interference (rotation runs without the storage lock in the background flush): the value handed over must be the old
+// log's FINAL counter, i.e. it is read only after the old log has been marked rotating - from then on Append refuses, and
+// GetNextSequence takes the log mutex, so every append that passed the status test before has finished.
+//@   check[C06,C08] before call (*WAL).GetNextSequence#1: currentWAL.status == wal.WALStatusRotating
 
 // The counter is restored from the maximum replayed sequence at open.
 //@ func (*Manager).recoverFromWAL
